@@ -339,13 +339,23 @@ def run(ctx):
             outer = h
     n_sites = 0
     utf8_sites = set()
+    _unknown_cmds = set()
     for arm, outcome, p in lm.iteration_paths():
         if outcome == "unreachable" or arm is None:
             continue
         ev = lm.events(p)
         shim = [e for e in ev if e[0].startswith("shim:")]
         names = [e[0][5:] for e in shim]
-        spec = SPEC.CALLBACKS[arm]
+        spec = SPEC.CALLBACKS.get(arm)
+        if spec is None and arm in _unknown_cmds:
+            continue
+        if spec is None:
+            _unknown_cmds.add(arm)
+            # a command the pinned tree does not have: which callback it may reach is not in the table of the property ("each client
+            # command invokes exactly the matching shim callback"), so the table has to be extended by hand before this can pass
+            ctx.ob("C02.arm-callbacks", False, "command variant %s is not in the command/callback table of this check (spec/commands.py CALLBACKS): a new command needs a reviewed entry "
+                   "saying which shim callback it may reach and how often" % arm, fn=fr.path, construct="unknown-command", callee=arm)
+            continue
         bad = [n for n in names if n not in spec["allowed"]]
         ctx.ob("C02.arm-callbacks", not bad, "command %s reaches shim callback(s) %s (allowed: %s)" % (arm, bad, sorted(spec["allowed"])),
                fn=fr.path, construct="arm-callback-set", callee=arm, where=fr.where(p.blocks[-1]), key_extra={"callbacks": ",".join(sorted(set(bad)))})
